@@ -25,6 +25,10 @@ CLAIMED = {
              "and required on every MSS 0->1 step.",
         tech="CBMC bounded model checking, symbolic error code / register values, one step from arbitrary coherent state",
         ref="3 C12"),
+    "C10": dict(
+        text="Refinement-step bounded model checking: from EVERY representation state of a queue of capacity 1..4 (any fill level, read index, codes, each live slot with or without its own heap text, stale pointers in dead slots) each real operation (push with symbolic code/text/explicit length and a possible strndup failure, pop, clear, count, SYST:ERR?) must produce exactly the abstract FIFO result - same codes, the very same text pointers, -350 replacing the newest on overflow - and re-establish the representation invariant; ownership is decided by CBMC memory-leak, double-free and deallocated-dereference checks on the real free() calls. Histories of any length follow by induction; SCPI_Init is the base case.",
+        tech="CBMC bounded model checking, one refinement step from an arbitrary representation state, memory-leak/double-free checks, allocation-fault injection",
+        ref="3 C10"),
     "C14": dict(
         text="The real formatters run on a symbolic value; the oracle decodes the produced digits back (Horner) and checks "
              "canonical form, and a second call with a symbolic buffer length 0..70 must produce exactly the prefix, NUL iff "
